@@ -12,14 +12,87 @@ import (
 
 const commonNote = "Trusted: go/types, go/ssa and go/packages of golang.org/x/tools v0.29.0; the reference tables in /verif/refs (transcribed from the cited RFCs and the repository's documentation); the library facts of DESIGN.md 2.8 (encoding/asn1 emits DER for the shape it is given, time layout tokens, curve constructors return the curves of their names). Assumed, not checked: correctness of the Go standard library, keybase brainpool, ghodss/yaml and santhosh-tekuri/jsonschema."
 
+// P builds a property entry; the evidence explanation and the MANIFEST text are assembled from the
+// scope sentence, the docs of the rules and the statement of what is not decided.
+func P(id, technique, scope, notDecided string, rules ...string) Property {
+	return Property{ID: id, Rules: rules, Technique: technique, DesignRef: "DESIGN.md 4 (" + id + ")", Scope: scope, NotDecided: notDecided}
+}
+
+func (p *Property) explanation() string {
+	s := p.Scope + " Rules applied, each to its complete instance set in the loaded program:"
+	for _, rn := range p.Rules {
+		if r := rules[rn]; r != nil {
+			s += " [" + rn + "] " + r.Doc + "."
+		}
+	}
+	return s + " NOT decided by this check: " + p.NotDecided
+}
+
+func (p *Property) levelText() string {
+	return "Decides structural necessary conditions of " + p.ID + " from source, for all inputs: " + p.Scope + " It does not decide: " + p.NotDecided + " Level 'other': breaking any rule breaks the behaviour, but the rules together do not imply the behaviour."
+}
+
 var properties = []Property{
-	{ID: "C05",
-		Rules:       []string{"TAB-KEYALG", "TAB-CURVEOID", "TAB-ALGOID", "TAB-SIGALG"},
-		Technique:   "constant/table evaluation over AST+types and SSA decision chains, compared with RFC reference tables",
-		DesignRef:   "DESIGN.md 4 (C05)",
-		Explanation: "All 14 key-algorithm names and 8 signature-algorithm names of the schema are followed through the program's finite tables (name -> constant -> key kind -> RSA bit size / library curve constructor -> named-curve OID and its inverse; name -> constant -> hash constructor, hash id, OID, key kind, inner = outer OID), the SubjectPublicKeyInfo/PKCS#8 algorithm identifiers and the documented defaults, and compared entry by entry with reference tables transcribed from RFC 3279/4055/5758/5480/5639. The tables are finite and enumerated completely. Not decided: that the library curve constructors implement those curves, that key generation uses the key it reports, anything about run-time behaviour.",
-		LevelText:   "Decides, for every entry of the finite name/constant/OID tables (complete enumeration), that the entry agrees with the standard: a necessary condition of C05 for all 14 x 8 algorithm names. It does not run key generation or signing; whether the generated key really is on that curve is left to the library.",
-	},
+	P("C01", "SSA provenance of issuer context and signing data flow, decision-table evaluation, dominance",
+		"where the issuer name, key and key identifier of a certificate come from; what is hashed, with which hash, signed with which key under which type guard; that the algorithm tables agree with the RFCs; that issuers are generated before their subjects.",
+		"that signatures verify (cryptography), the DN bytes (known finding D21: the issuer DN is re-encoded, not copied), brainpool/RSA arithmetic.",
+		"TAB-SIGALG"),
+	P("C02", "ASN.1 tag/shape comparison of the marshalled struct types with RFC 5280, constant evaluation, SSA provenance",
+		"the shape (field order, universal types, tags, EXPLICIT/OPTIONAL/DEFAULT) of the certificate types handed to encoding/asn1, the serial bound and version constant, the SubjectPublicKeyInfo identifiers, and the NULL-parameter rule for RSA signature identifiers.",
+		"DER minimality of lengths/integers/times (encoding/asn1 is trusted for the shape it is given), the 'independent parser reads the same fields' clause, byte-exact round trips, the UTCTime/GeneralizedTime choice.",
+		"ASN1-CERT", "TAB-SERIAL", "TAB-ALGOID", "TAB-SIGALG"),
+	P("C03", "purity (caller-memory) analysis over SSA with module callees followed, table and schema comparison",
+		"that validating against a profile cannot change the subject (no write to caller memory), the attribute short-name table, and that every schema property of the certificate document has a Go field to land in.",
+		"the string type chosen per value, comma/escape parsing for all strings, the actual bytes of the encoded DN.",
+		"PURE", "TAB-RDN", "SCHEMA-TAGS"),
+	P("C04", "constant/layout evaluation, regexp-syntax analysis of the duration pattern, SSA wiring of parse results, error-drop analysis",
+		"the date layout constant and location reaching time.ParseInLocation, which capture group feeds which AddDate argument, the default lifetime, the from-absent default, that no parse error of a duration count is discarded, and the year range guard.",
+		"calendar arithmetic, time-zone behaviour, the UTCTime/GeneralizedTime choice (library).",
+		"TAB-DATE", "ERR-DROP", "YEAR-RANGE", "SCHEMA-TAGS"),
+	P("C05", "constant/table evaluation over AST+types and SSA decision chains, compared with RFC reference tables",
+		"all 14 key-algorithm names and 8 signature-algorithm names of the schema followed through the program's finite tables (name -> constant -> key kind -> RSA bit size / library curve constructor -> named-curve OID and its inverse; name -> constant -> hash constructor, hash id, OID, key kind, inner = outer OID), the SubjectPublicKeyInfo/PKCS#8 identifiers and the documented defaults.",
+		"that the library curve constructors implement those curves; that key generation succeeds; anything at run time.",
+		"TAB-KEYALG", "TAB-CURVEOID", "TAB-ALGOID", "TAB-SIGALG"),
+	P("C06", "SSA data flow of the critical flag, lint for partial reads, schema/struct comparison, field liveness",
+		"that the critical flag of every constructor and of raw extensions comes from the configuration, that raw values are decoded completely (no single Read), that every configured field is consumed and every schema property has a field, and that every extension kind names its own OID.",
+		"base64 decoding correctness, behaviour for 64 KiB payloads, the order of extensions in the encoded certificate (PROV-EXT is not built).",
+		"PROV-CRIT", "LINT-READ", "SCHEMA-TAGS", "LIVE-FIELD", "TAB-EXTOID"),
+	P("C07", "table evaluation against RFC 5280/6960, ASN.1 shape comparison, dependence and range-check lints",
+		"every key-usage bit, extended-key-usage OID, general-name tag, qualifier id, access-method OID and extension OID against the RFCs; the shapes of the marshalled extension structs; that the keyUsage bit length depends on the flags; that parsed IP octets are range-checked; that buffers and slices handed on are not overwritten.",
+		"byte-exact encodings ('an independent decoder reads back'), wiring of every YAML content field to its constructor argument (PROV-CONTENT is not built). Known finding D10: pathLen 0 cannot be expressed.",
+		"TAB-KU", "TAB-EKU", "TAB-GN", "TAB-QUAL", "TAB-EXTOID", "ASN1-EXT", "LIVE-DEP", "LINT-NARROW", "LINT-REUSE"),
+	P("C08", "purity analysis, error-propagation chains over the module call graph",
+		"two clauses only: merging does not write to the profile or configuration it was given, and a content-less extension that remains makes generation fail (the override-needed builder always errs, every Builder/Compile error is returned up to the CLI, every Builder hands the handler's result back).",
+		"the ordering/override algorithm of Merge over arbitrary lists (behaviour of a list algorithm).",
+		"PURE", "ERR-CHAIN-EXT"),
+	P("C09", "field liveness with branch-condition use, purity analysis",
+		"that the optional flag is consulted as a branch condition of the subject validator, and that validation does not modify the subject.",
+		"that the validator implements the subsequence rule for all profile x subject pairs; that rejection aborts before any write (ABORT-BEFORE-WRITE is not built).",
+		"LIVE-FIELD", "PURE"),
+	P("C13", "type-level JSON visibility and distinguishability analysis, writer/reader table agreement, purity",
+		"that every field reachable from the hashed value is visible to encoding/json, that no two extension kinds can marshal alike (known finding D15 lists the 21 pairs that can), that hashing and building extensions do not modify the configuration, and that the hash line written is the hash line read.",
+		"collision freeness; that each single-field edit changes the JSON; which fields HashSum blanks on which path (HASH-KILL / HASH-SURVIVE are not built).",
+		"HASH-SHAPE", "TAB-HASHLINE", "PURE"),
+	P("C15", "error-propagation chain from os.WriteFile to the process exit status, tolerance of decode errors",
+		"one clause: a write error is returned through every function up to the CLI and ends the process with a non-zero status; plus the recovery precondition that an undecodable PEM does not abort the import and decoded parts are kept.",
+		"crash points, torn writes and recovery across runs (run-time histories).",
+		"ERR-CHAIN-WRITE", "TOLERANT"),
+	P("C16", "table evaluation, ASN.1 shape comparison, coverage of partial marshalling ranges, reuse lint",
+		"the general-name kinds of authority names, the tags and string kinds of NamingAuthority / Admissions / ProfessionInfo against Common PKI, that the hand-written marshal methods cover every field once in order, the explicit [0] wrapper, and that slices handed on are not reused.",
+		"the assembled TLV bytes; wiring of every YAML field to its struct field (PROV-CONTENT is not built).",
+		"TAB-GN", "ASN1-ADM", "PARTIAL-COVER", "LINT-REUSE", "TAB-EXTOID"),
+	P("C17", "table bijection, ASN.1 shape comparison, writer/reader table agreement",
+		"that curve OIDs and their inverse agree for all ten curves, the PKCS#8 and ECPrivateKey shapes and version constants, the algorithm identifiers of writer and reader, and that every PEM type written is read.",
+		"equality of keys after a round trip, interoperability with other implementations, scalar padding (FILLBYTES is not built).",
+		"TAB-CURVEOID", "ASN1-PKCS8", "TAB-PEMTYPE", "TAB-ALGOID"),
+	P("C18", "error-propagation chain through the directory walk, suffix table, tolerance of unparsable files",
+		"that a duplicate alias is an error returned through the walk and Open to the CLI (non-zero exit before planning), the configuration suffix table on the lower-cased name, and that a file that does not parse is skipped.",
+		"correctness of the reachability count for all issuer graphs; that nothing is written before the consistency check (GUARD-OPEN / ABORT-BEFORE-WRITE are not built).",
+		"ERR-CHAIN-OPEN", "TAB-SUFFIX", "TOLERANT"),
+	P("C20", "call-graph reachability of explicit panics with per-site discharge rules, bug-pattern lints with fixture controls, error-drop analysis",
+		"that every explicit panic reachable from the entry points is discharged by a checked invariant (constant in-range arguments, algorithm table rows, configurator result types, OID validation at parse time, year range), that five bug patterns are absent (relative index misuse, unchecked Index result, nil part dereference, single-result type assertion, unchecked narrowing), that no error is dropped, and that schema enum values without a case reach an error.",
+		"panics inside libraries, arbitrary index/nil safety (no abstract interpreter for integers/slices): this is pattern checking, not a proof of panic freedom.",
+		"PANIC-INV", "OID-VALID", "YEAR-RANGE", "LINT-RELIDX", "LINT-IDXNEG", "LINT-NILPART", "LINT-TYPEASSERT", "LINT-NARROW", "LINT-READ", "ERR-DROP", "SCHEMA-ENUM"),
 }
 
 var notApplicable = map[string]string{
@@ -49,7 +122,7 @@ func emitManifest() {
 			"evidence_file":       "/verif/evidence/" + p.ID + ".json",
 			"replay_cmd_template": "./bin/gopkicheck -replay {path}",
 			"engine":              "gopkicheck",
-			"level_claimed":       map[string]any{"category": "other", "text": p.LevelText, "design_ref": p.DesignRef},
+			"level_claimed":       map[string]any{"category": "other", "text": p.levelText(), "design_ref": p.DesignRef},
 			"level_note":          commonNote,
 			"technique":           "static analysis: " + p.Technique,
 		})
